@@ -20,6 +20,10 @@ Sources (fetch strategies)
 Operations: __iter__/__next__, fetchone, fetchmany(n|None), fetchall/all, partitions(n|None),
 first, one, one_or_none, scalar, scalar_one(_or_none), scalars(i|name), mappings, columns,
 tuples, unique(strategy), yield_per, freeze -> __call__, merge, close, closed, keys.
+Projection chains: every chain columns -> columns -> {scalars | mappings().columns | columns}
+over a fixed family (by position / by name / negative, reordering and dropping leading
+columns) on each cursor strategy (6 typed columns whose values identify their column) and
+on 5-column iterator sources, plus random chains.
 Exhaustive sequences (length <= 3 quick / <= 4 thorough) over a reduced alphabet x 5 row
 sets x 6 sources (quick: 3 cursor windows), and random sequences up to 12 calls.
 
@@ -70,7 +74,8 @@ META = {
     "require": ["result_calls", "rows_delivered", "unique_rows_filtered", "closed_error_checks",
                 "src_iter", "src_chunked", "src_cursor_default", "src_cursor_buffered", "src_cursor_fully",
                 "src_cursor_yield", "src_cursor_returning", "frozen_thawed", "merged_results",
-                "exhaustive_sequences", "random_sequences", "conservation_checks", "expected_exceptions_matched"],
+                "exhaustive_sequences", "random_sequences", "conservation_checks", "expected_exceptions_matched",
+                "projection_chains", "projection_chains_depth3"],
     "assumptions": ["reference model vf/models/resultmodel_gf.py is correct"],
 }
 
@@ -267,6 +272,52 @@ def run(ctx):
                     ctx.count("merged_results")
             if k < 3:
                 ctx.sample({"spec": spec, "calls": done})
+
+        # ---------------- Part A2: projection chains (columns -> columns -> scalars / mappings().columns /
+        # columns; by position and by name; reordering and dropping) on every cursor strategy
+        # and on a wide iterator source: wrong column values with the right keys
+        wide = [[k * 10 + v for k in range(5)] for v in (0, 1, 1, 2)]
+        chain_specs = [{"kind": "iter", "keys": ["a", "b", "c", "d", "e"], "rows": wide},
+                       {"kind": "chunked", "keys": ["a", "b", "c", "d", "e"], "rows": wide}]
+        for st, nn in [("default", None), ("buffered", 2), ("fully", None), ("yield", 2), ("returning", None)]:
+            sp = {"kind": "cursor", "keys": list(G.POOL_KEYS), "strategy": st, "offset": 12, "limit": 4}
+            if nn:
+                sp["n"] = nn
+            if st == "returning":
+                sp["rows"] = [list(r) for r in G.make_pool()[12:16]]
+            chain_specs.append(sp)
+        idx = 0
+        for spec in chain_specs:
+            for chain in G.exhaustive_projection_chains(spec["keys"]):
+                idx += 1
+                if not ctx.mine(idx):
+                    continue
+
+                def opsource(model, chain=chain):
+                    for hname, op in chain:
+                        if not model.allowed(hname, op):
+                            return
+                        yield hname, list(op)
+
+                done, ok = runner.run(spec, opsource, "projection-chain")
+                ctx.count("projection_chains")
+                if sum(1 for _, op in done if op[0] in ("columns", "scalars")) >= 3:
+                    ctx.count("projection_chains_depth3")
+        n = ctx.pick({"quick": 150, "thorough": 4000})
+        for k in range(n):
+            if (k & 0xF) == 0 and not ctx.budget_ok():
+                break
+            spec = G.gen_spec(rng, maxrows)
+            if len(spec["keys"]) < 4:
+                continue
+
+            def opsource(model):
+                return G.projection_chain(rng, model)
+
+            done, ok = runner.run(spec, opsource, "projection-chain-random")
+            ctx.count("projection_chains")
+            if sum(1 for _, op in done if op[0] in ("columns", "scalars")) >= 3:
+                ctx.count("projection_chains_depth3")
 
         # ---------------- Part C: directed buckets (freeze/thaw, merge, unique+partial)
         n = ctx.pick({"quick": 120, "thorough": 2500})
